@@ -61,6 +61,10 @@ EXTRA = [
     "class Acc\n    def total: Int\n    def name: Str?\n    def show(self) =>\n        print(self.total)\n\ndef a := Acc()\na.show()\n",
     "def y: Int\ndef z: Str?\nprint(1)\n",
     "type Shape\n    def area(self) -> Int\nclass Base\n    def b: Int := 1\ntype Solid: Base\n    def vol(self) -> Int\n",
+    # an interface whose only parent is a concrete class / another interface, with no parentless interface in the module
+    "class Base\n    def b: Int := 1\ntype Solid: Base\n    def vol(self) -> Int\n",
+    "class Base2\n    def b: Int := 1\ntype Mid: Base2\n    def m(self) -> Int\ntype Leaf: Mid\n    def l(self) -> Int\n",
+    "class Base(def label: Str)\n    def show(self) -> Str => self.label\nclass Item(def name: Str, def nickname: Str): Base(\"<{nickname}>\")\ndef i := Item(\"p\", \"q\")\nprint(i.name)\nprint(i.show())\n",
 ]
 
 
